@@ -1,6 +1,7 @@
 import TbbVerif.Core.Proto
 import TbbVerif.Model.C05
 import TbbVerif.Generated.C05Stride
+import Driver.C05Each
 
 open TbbVerif TbbVerif.C05
 
@@ -278,6 +279,6 @@ def driver : Proto.Driver := { σ := St, init := {}, step := step }
 
 end C05Drv
 
-def drivers : List (String × Proto.Driver) := [("c05", C05Drv.driver)]
+def drivers : List (String × Proto.Driver) := [("c05", C05Drv.driver), ("c05each", C05EachDrv.driver)]
 
 def main (args : List String) : IO UInt32 := Proto.mainOf drivers args
